@@ -33,7 +33,11 @@ RemoveAt(s, i) == [j \in 1..(Len(s)-1) |-> IF j < i THEN s[j] ELSE s[j+1]]
 SelectorsAll ==
     {[by |-> "id", id |-> i - 1, target |-> i] : i \in 1..N} \cup {[by |-> "id", id |-> i - 1 - N, target |-> i] : i \in 1..N}
     \cup {[by |-> "id", id |-> N, target |-> 0], [by |-> "id", id |-> -N - 1, target |-> 0]}
-    \cup {[by |-> "pos", p |-> psys.atoms[i].p, off |-> off, target |-> IF off \in {"beyond", "corner"} THEN 0 ELSE i] : i \in 1..N, off \in {"exact", "within", "beyond", "corner"}}
+    \cup {[by |-> "pos", p |-> psys.atoms[i].p, off |-> off, atol |-> "default", target |-> IF off \in {"beyond", "corner"} THEN 0 ELSE i] : i \in 1..N, off \in {"exact", "within", "beyond", "corner"}}
+    \* an explicit search tolerance: zero (exact match only) and a wide one (0.1: the "beyond" offset of 1/16 is then inside)
+    \cup {[by |-> "pos", p |-> psys.atoms[i].p, off |-> "exact", atol |-> "zero", target |-> i] : i \in 1..N}
+    \cup {[by |-> "pos", p |-> psys.atoms[i].p, off |-> "within", atol |-> "zero", target |-> 0] : i \in 1..N}
+    \cup {[by |-> "pos", p |-> psys.atoms[i].p, off |-> "beyond", atol |-> "wide", target |-> i] : i \in 1..N}
     \cup {[by |-> "image", p |-> Add(psys.atoms[i].p, VecMat(n, psys.cell.v)), target |-> i] :
             i \in 1..N, n \in {s \in Shifts(psys.pbc, 1) : Norm2(s) = 1}}
     \cup {[by |-> "relpos", i |-> i - 1, target |-> i] : i \in 1..N}
